@@ -51,7 +51,11 @@ const c12ACount = 6 * 6 * 6 * 19 * 48
 
 func c12BCount() int64 { c12Tables(); return 5 * 5 * 8 * int64(len(c12B)) }
 
-func c12Exhaustive() int64 { return c12ACount + c12BCount() }
+// C "huge offsets": source zoom 22..25, target zoom 0..2, base exponent 33..35, offsets k*2^u + d (u = 33..35, k = 1..3,
+// d = -2..2), source indices f in [-3,3] resp. keys 0..3: key boundaries that fall inside 2 m and 4 m voxels.
+const c12CCount = 4 * 3 * 3 * 45 * 11
+
+func c12Exhaustive() int64 { return c12ACount + c12BCount() + c12CCount }
 
 func c12Decode(i int64) c12Tuple {
 	if i < c12ACount {
@@ -66,6 +70,26 @@ func c12Decode(i int64) c12Tuple {
 		return c12Tuple{1, p - 16, zi, zo, E, O}
 	}
 	i -= c12ACount
+	if bc := c12BCount(); i >= bc {
+		i -= bc
+		p := i % 11
+		i /= 11
+		d := i%5 - 2
+		i /= 5
+		k := 1 + i%3
+		i /= 3
+		u := 33 + i%3
+		i /= 3
+		O := k*pow2(u) + d
+		E := 33 + i%3
+		i /= 3
+		zo := i % 3
+		zi := 22 + i/3
+		if p < 7 {
+			return c12Tuple{0, p - 3, zi, zo, E, O}
+		}
+		return c12Tuple{1, p - 7, zi, zo, E, O}
+	}
 	c12Tables()
 	n := int64(len(c12B))
 	p := i % n
@@ -86,16 +110,42 @@ func init() {
 		Rule: "per case: one conversion tuple (direction, source index, source zoom, target zoom, base exponent E, base offset O) with zooms/E in 0..35 (emphasis on 0, 24-26, 35), O in {0, powers of two, odd, negative, small, 2^24, 2^25}, " +
 			"source index uniform or at the bottom/top of its zoom, 0, -1, or just outside the zoom's range. Oracle: error iff source index missing or exact cover leaves the target range (never when the metre-widened cover fits); " +
 			"otherwise min<=max, [min,max] contains the exact cover and lies inside the metre-widened cover; the opposite function called on up to 64 returned indices must return a range containing the source index. " +
-			"Non-trivial = conversion tuple with source zoom != target zoom or O != 0 or E != 25; distinct by tuple. Both tiers include two completely enumerated sub-scopes (metre window 22..27, coarse zooms 0..3 with all indices).",
-		Assume: []string{"reference: exact rational intervals (math/big); widened = interval rounded outward to whole metres", "|O| <= 2^26 so that the library's int64 shifts cannot overflow"},
+			"Non-trivial = conversion tuple with source zoom != target zoom or O != 0 or E != 25; distinct by tuple. Both tiers include three completely enumerated sub-scopes (metre window 22..27, coarse zooms 0..3 with all indices, huge offsets k*2^33..35 at base exponents 33..35).",
+		Assume: []string{"reference: exact rational intervals (math/big); widened = interval rounded outward to whole metres", "|O| <= 2^26 in 90 % of the cases, up to 2^36 otherwise and in sub-scope C, always with |O|*2^(35-E) < 2^61 so that the library's int64 shifts cannot overflow"},
 		N:      func(t string) int64 { return c12Exhaustive() + tierN(250_000, 8_000_000)(t) },
 		Floor:  tierN(1000, 10000),
 		Run:    runC12,
 		Exhaustive: func(string) []string {
 			return []string{fmt.Sprintf("A: zooms and base exponent 22..27, offsets 23..41, f in [-8,7] / keys 0..31, both directions (%d tuples)", int64(c12ACount)),
-				fmt.Sprintf("B: source zoom 0..3 with every index, target zoom 0..4, base exponent 24..28, 8 offsets, both directions (%d tuples)", c12BCount())}
+				fmt.Sprintf("B: source zoom 0..3 with every index, target zoom 0..4, base exponent 24..28, 8 offsets, both directions (%d tuples)", c12BCount()),
+				fmt.Sprintf("C: source zoom 22..25, target zoom 0..2, base exponent 33..35, offsets k*2^u+d (u 33..35, k 1..3, d -2..2), f in [-3,3] / keys 0..3 (%d tuples)", int64(c12CCount))}
 		},
 	})
+}
+
+// genOffsetWide: 10 % large offsets (2^27 .. 2^36: powers of two and neighbours, small multiples of 2^33..2^35, uniform;
+// both signs), kept inside the arithmetic the library is written for: the offset scaled to the finest zoom,
+// |O| * 2^(35-E), stays below 2^61 (beyond that the unchanged library wraps around int64 - out of the statement's reach).
+func genOffsetWide(r *core.Rng, E int64) int64 {
+	if !r.P(0.1) {
+		return genOffset(r)
+	}
+	var o int64
+	switch r.Intn(4) {
+	case 0:
+		o = pow2(r.Range(27, 36)) + r.Range(-1, 1)
+	case 1:
+		o = r.Range(1, 4)*pow2(r.Range(33, 35)) + r.Range(-2, 2)
+	default:
+		o = r.Range(1<<27, 1<<36)
+	}
+	for sh := int64(35) - E; sh > 0 && o >= pow2(61-sh); {
+		o >>= 1
+	}
+	if r.P(0.3) {
+		o = -o
+	}
+	return o
 }
 
 func genOffset(r *core.Rng) int64 {
@@ -187,7 +237,7 @@ func runC12(c *core.Case) {
 		if r.P(0.3) {
 			E = 25
 		}
-		O = genOffset(r)
+		O = genOffsetWide(r, E)
 		lo, hi := -pow2(zi), pow2(zi)-1
 		if dir == 1 {
 			lo = 0
